@@ -133,6 +133,7 @@ class Builder:
         self.assigned = set()
         self.loop_ends = []
         self.iter_state = {}
+        self.idx_lens = {}       # loop index -> names / texts that denote the length of the list it runs over
         self.last_lit = None
         self._ords = {}
         self.pending = {}        # closure span -> its write template (a closure defined here and handed to a callee)
@@ -232,13 +233,85 @@ class Builder:
                 return (l == r) if e["op"] == "==" else (l != r)
         return None
 
+    IDX_REPS = {
+        # position class of an enumerate loop over a list of n >= 1 elements -> representative (index, n) pairs
+        "#first": [(0, 1), (0, 2), (0, 5)], "#rest": [(1, 2), (1, 3), (2, 3), (4, 5)],
+        "#only": [(0, 1)], "#head": [(0, 2), (0, 3), (0, 5)], "#middle": [(1, 3), (2, 5), (3, 5)], "#last": [(1, 2), (2, 3), (4, 5)],
+    }
+
+    def _eval_idx(self, e, idx, i, n, lens):
+        """value of an integer / boolean expression over a loop index and the length of the iterated list; KeyError if the
+        expression mentions anything else"""
+        e = H.peel_ref(H.peel(e)) if isinstance(e, dict) else e
+        k = e.get("k")
+        if k == "lit" and e["lit"]["t"] in ("int", "bool"):
+            return e["lit"]["v"]
+        if k == "local":
+            if e["name"] == idx:
+                return i
+            if e["name"] in lens:
+                return n
+            raise KeyError(e["name"])
+        if k == "cast":
+            return self._eval_idx(e["e"], idx, i, n, lens)
+        if k == "mcall" and e["name"] == "len" and not e["args"] and ("*" in lens or T.text(e["recv"]) in lens):
+            return n
+        if k == "unary" and e["op"] == "not":
+            return not self._eval_idx(e["e"], idx, i, n, lens)
+        if k == "binary":
+            l, r = self._eval_idx(e["l"], idx, i, n, lens), self._eval_idx(e["r"], idx, i, n, lens)
+            op = e["op"]
+            if op in ("&&", "||"):
+                return (l and r) if op == "&&" else (l or r)
+            if isinstance(l, bool) or isinstance(r, bool):
+                raise KeyError("bool arithmetic")
+            return {"+": l + r, "-": l - r, "<": l < r, "<=": l <= r, ">": l > r, ">=": l >= r, "==": l == r, "!=": l != r}[op]
+        raise KeyError(k)
+
     def index_guard(self, gd):
-        """value of a guard `i > 0` / `i != 0` / `i == 0` on a loop index bound by an enclosing enumerate loop"""
-        m = re.match(r"^\(?(\w+) (>|!=|==) 0\)?$", gd.get("text") or "")
-        if not m or "taken" not in gd or self.bind.get(m.group(1)) not in ("#first", "#rest"):
+        """value of a guard on the index of an enclosing enumerate loop - `i > 0`, `i >= 1`, `i != 0`, `i + 1 < n`,
+        `i == xs.len() - 1` ... - when it is the same for every (index, length) of the position class being built"""
+        ge = gd.get("e")
+        if "taken" not in gd or not isinstance(ge, dict):
             return None
-        first = self.bind[m.group(1)] == "#first"
-        return first if m.group(2) == "==" else not first
+        names = set(n_["name"] for n_ in walk(ge) if n_.get("k") == "local")
+        for idx in names:
+            cls = self.bind.get(idx)
+            if cls not in self.IDX_REPS:
+                continue
+            lens = self.idx_lens.get(idx, set())
+            try:
+                vals = set(bool(self._eval_idx(ge, idx, i, n, lens)) for i, n in self.IDX_REPS[cls])
+            except (KeyError, TypeError):
+                return None
+            if len(vals) == 1:
+                return vals.pop()
+            return None
+        return None
+
+    def last_aware(self, S, idx, lens):
+        """does the loop body test its index against the length of the list (`i + 1 < n`)"""
+        def guards(x):
+            if not isinstance(x, tuple) or not x:
+                return
+            if x[0] == "seq":
+                for y in x[1]:
+                    yield from guards(y)
+            elif x[0] == "alt":
+                for g, b in x[1]:
+                    yield g
+                    yield from guards(b)
+            elif x[0] in ("loop", "star", "star1", "sepby"):
+                yield from guards(x[1])
+        for g in guards(S):
+            ge = g.get("e")
+            if not isinstance(ge, dict):
+                continue
+            locs = set(n_["name"] for n_ in walk(ge) if n_.get("k") == "local")
+            has_len = bool(locs & lens) or any(n_.get("k") == "mcall" and n_["name"] == "len" and T.text(n_["recv"]) in lens for n_ in walk(ge))
+            if idx in locs and has_len:
+                return True
+        return False
 
     def build_fold_table(self, S, s, e, fn_end, fname):
         """a `fold(flag, |flag, element| ..)` over an enum whose separator logic is more than `if !first`: the closure is
@@ -768,6 +841,36 @@ class Builder:
                         self.bind.pop(idx, None)
                     else:
                         self.bind[idx] = old
+                return
+            if idx is not None:
+                # what the index can be compared with: the length of the iterated list, by name or as `xs.len()`
+                base = re.sub(r"(\.(iter|into_iter|enumerate|iter_mut)\(\))+$", "", (info.get("over") or "").strip())
+                lens = {base} if base else set()
+                for n_ in walk((self.f.fns.get(fname) or {}).get("hir") or {}):
+                    if n_.get("k") == "stmt_let" and n_["pat"].get("k") == "bind" and not n_["pat"].get("mut") and isinstance(n_.get("init"), dict):
+                        iv = H.peel_ref(n_["init"])
+                        if iv.get("k") == "mcall" and iv["name"] == "len" and not iv["args"] and T.text(iv["recv"]) == base and n_["pat"]["name"] not in self.assigned:
+                            lens.add(n_["pat"]["name"])
+                self.idx_lens[idx] = lens
+            if idx is not None and self.last_aware(S[1], idx, self.idx_lens.get(idx, set())):
+                # the body also tests for the last element: only | head middle* last
+                m = a.state()
+                old = self.bind.get(idx)
+                for cls, frm, to in (("#only", s, e), ("#head", s, m), ("#middle", m, m), ("#last", m, e)):
+                    self.bind[idx] = cls
+                    if frm is to:
+                        m2 = a.state()
+                        self.loop_ends.append(m2)
+                        self.build(S[1], frm, m2, fn_end, fname)
+                        a.add_eps(m2, to)
+                    else:
+                        self.loop_ends.append(to)
+                        self.build(S[1], frm, to, fn_end, fname)
+                    self.loop_ends.pop()
+                if old is None:
+                    del self.bind[idx]
+                else:
+                    self.bind[idx] = old
                 return
             if idx is not None:
                 # first iteration (index 0) then the others (index > 0)
